@@ -105,6 +105,8 @@ def execute(ctx, spec):
         return _exec_prot(ctx, spec, out)
     if spec['f'] == 'mixdel':
         return _exec_mixdel(ctx, spec, out)
+    if spec['f'] == 'fuzzpath':
+        return _exec_fuzzpath(ctx, spec, out)
     return _exec_user(ctx, spec, out)
 
 
@@ -279,6 +281,66 @@ def _exec_user(ctx, spec, out):
     return out
 
 
+def _exec_fuzzpath(ctx, spec, out):
+    """Plain replay of an input found by the atheris campaign: one public call with an arbitrary name string."""
+    import darr
+    which, name = spec['which'], spec['name']
+    with ctx.scratch() as d:
+        parent = os.path.join(d, 'parent')
+        os.makedirs(os.path.join(parent, 'pa'))
+        os.makedirs(os.path.join(parent, 'pr'))
+        a = darr.asarray(os.path.join(parent, 'pa', 'a.darr'), np.arange(8, dtype='int32'), accessmode='r+', metadata={'m': 1})
+        r = darr.asraggedarray(os.path.join(parent, 'pr', 'r.darr'), [[1, 2], [3], []], dtype='float32', accessmode='r+')
+        obj = a if which & 1 else r
+        parent = str(obj.path)          # only the files that constitute THIS array are protected by its DataDir
+        before = snapshot(parent)
+        dd = obj.datadir
+        m = (which >> 1) % 8
+        try:
+            if m == 0:
+                dd.write_txt(name, 'x', overwrite=bool(which & 128))
+            elif m == 1:
+                dd.write_jsondict(name, {'a': 1}, overwrite=bool(which & 128))
+            elif m == 2:
+                dd.write_jsonfile(name, [1], overwrite=bool(which & 128))
+            elif m == 3:
+                dd.update_jsondict(name, {'a': 1})
+            elif m == 4:
+                dd.delete_files([name])
+            else:
+                mode_ = ['w', 'a', 'r+', 'wb', 'x', 'ab', 'rb+', 'w+'][(which >> 4) % 8]
+                with dd.open_file(name, mode_) as f:
+                    f.write(b'Z' if 'b' in mode_ else 'Z')
+        except Exception:
+            pass
+        after = snapshot(parent)
+        changed = [k for k in before if after.get(k) != before[k]]
+        created_inside = [k for k in after if k not in before and k.split('/')[0] in ('values', 'indices')]
+        if changed or created_inside:
+            out.viol('protected-file-modified', 'fuzz:path', f'method #{m} with name {name!r} changed {changed[:3] or created_inside[:3]}')
+    return out
+
+
+def task_atheris(ctx, col, runs):
+    from vlib.fuzzdrive import run_atheris
+    from vlib.runner import judge
+    names = ['README.txt', 'arrayvalues.bin', 'arraydescription.json', 'metadata.json', 'values/arrayvalues.bin', 'indices/README.txt', 'values', 'notes.txt']
+    seeds = [bytes([w]) + n.encode() for w, n in zip((1, 9, 0, 3, 8, 10, 8, 1), names)]
+    tokens = names + ['./', '../', '//', '/', '.', '..', 'values/', 'indices/', 'a.darr/', 'r.darr/', '\\', 'README', '.txt', '.bin', '.json']
+    r = run_atheris(ctx, 'c20', runs, seeds, tokens, max_len=64)
+    col.counters['atheris_executions'] += r['executed']
+    col.evaluations += r['executed']
+    if not r['available']:
+        col.notes.append(r['note'])
+        col.counters['atheris_unavailable'] += 1
+        return
+    if r['finding']:
+        spec = {'f': 'fuzzpath', 'which': r['finding']['which'], 'name': r['finding']['name']}
+        o = execute(ctx, spec)
+        for v in judge(ctx, col, spec, o):
+            col.violation(spec, v)
+
+
 def matrix():
     for kind in ('Array', 'Ragged'):
         for method, t, how in itertools.product(METHODS, targets(kind), SPELLINGS):
@@ -307,4 +369,6 @@ def tasks(ctx):
     for sh in range(NSHARDS):
         t.append((task_matrix, dict(shard=sh)))
         t.append((task_user, dict(shard=sh, n=ctx.pick(400, 2500))))
+    if ctx.thorough:
+        t.append((task_atheris, dict(runs=300000)))
     return t
